@@ -107,7 +107,7 @@ def run_harness(binary, lines, timeout_s=10, workers=None, env_extra=None):
     return results
 
 
-def run_driver(lines, workers=None):
+def run_driver(lines, workers=None, timeout_s=600):
     """Same protocol for the Lean driver `blocv` (never crashes; answers every line)."""
     exe = build.blocv_path()
     if workers is None:
@@ -118,8 +118,11 @@ def run_driver(lines, workers=None):
     def work(chunk):
         if not chunk:
             return {}
-        p = subprocess.run([exe], input=("\n".join(chunk) + "\n").encode(), stdout=subprocess.PIPE,
-                           stderr=subprocess.PIPE)
+        try:
+            p = subprocess.run([exe], input=("\n".join(chunk) + "\n").encode(), stdout=subprocess.PIPE,
+                               stderr=subprocess.PIPE, timeout=timeout_s)
+        except subprocess.TimeoutExpired:
+            return {"#driver-error": "driver timed out after %ds on a chunk starting with: %s" % (timeout_s, chunk[0][:300])}
         res = {}
         for ln in p.stdout.decode("latin-1").split("\n"):
             if not ln:
